@@ -819,7 +819,8 @@ Proof.
     subst mant. rewrite (parse_mantissa_ok neg ip fp pt [ev] Hpt Hi Hf Hne).
     destruct pt.
     + rewrite finish_ok.
-      * f_equal. f_equal. unfold zsum. cbn [app fold_left]. lia.
+      * replace (zsum ([ev] ++ [- Z.of_nat (List.length fp)])) with (ev - Z.of_nat (List.length fp))
+          by (unfold zsum; cbn [app fold_left]; lia). reflexivity.
       * apply dec_digits_val_nonneg. rewrite forallb_app, Hi, Hf. reflexivity.
       * cbn [app forallb]. rewrite Hle, Hlim_f. reflexivity.
       * replace (zsum ([ev] ++ [- Z.of_nat (List.length fp)])) with (ev - Z.of_nat (List.length fp))
